@@ -71,6 +71,14 @@ REGRESSION = [
     _r("def f(a: Qlist[bool, 4]) -> Tuple[bool, bool]:\n    return (all(a), any(a))\n", [["a", ["bool"] * 4]], ["bool", "bool"]),
     _r("def f(a: Qlist[Qint[2], 3]) -> Tuple[Qint[2], Qint[2], Qint[2]]:\n    return (max(a), min(a), sum(a))\n", [["a", ["Qint2"] * 3]], ["Qint2", "Qint2", "Qint2"]),
     _r("def f(c: Qchar) -> bool:\n    return ord(c) == 3\n", [["c", "Qchar"]], "bool"),
+    _r("def f(a: Qint[2], b: Qint[4]) -> Qint[4]:\n    return (a - b) << 1\n", [["a", "Qint2"], ["b", "Qint4"]], "Qint4"),
+    _r("def f(a: Qint[2], b: Qint[4]) -> Qint[4]:\n    s = a - b\n    return s if a > 1 else a\n", [["a", "Qint2"], ["b", "Qint4"]], "Qint4"),
+    _r("def f(a: Qint[2], b: Qint[4]) -> Qint[2]:\n    return a - b\n", [["a", "Qint2"], ["b", "Qint4"]], "Qint2"),
+    _r("def f(a: Qint[2], b: Qint[4]) -> Qint[4]:\n    return (a + b) << 1\n", [["a", "Qint2"], ["b", "Qint4"]], "Qint4"),
+    _r("def f(a: Qint[2], b: Qint[4], c: bool) -> Qint[4]:\n    return (b - a) if c else (a - b)\n", [["a", "Qint2"], ["b", "Qint4"], ["c", "bool"]], "Qint4"),
+    _r("def f(a: Tuple[bool, Qint[2]], b: Tuple[bool, Qint[2]]) -> bool:\n    return a == b\n", [["a", ["bool", "Qint2"]], ["b", ["bool", "Qint2"]]], "bool"),
+    _r("def f(a: Tuple[Qint[2], Qint[4]], b: Tuple[Qint[2], Qint[4]]) -> bool:\n    return a == b\n", [["a", ["Qint2", "Qint4"]], ["b", ["Qint2", "Qint4"]]], "bool"),
+    _r("def f(a: Tuple[Qint[2], bool], d: Qint[2]) -> bool:\n    t = (d, True)\n    return a == t\n", [["a", ["Qint2", "bool"]], ["d", "Qint2"]], "bool"),
     _r("def f(a: Tuple[Qint[2], bool], b: Tuple[Qint[2], bool]) -> Tuple[bool, bool]:\n    return (a != b, a == b)\n", [["a", ["Qint2", "bool"]], ["b", ["Qint2", "bool"]]], ["bool", "bool"]),
     _r("def f(a: Tuple[bool, bool], b: Tuple[bool, bool], c: bool) -> bool:\n    return (a != b) ^ c\n", [["a", ["bool", "bool"]], ["b", ["bool", "bool"]], ["c", "bool"]], "bool"),
     _r("def f(a: Qlist[Qint[2], 2], b: Qlist[Qint[2], 2]) -> bool:\n    return a != b\n", [["a", ["Qint2", "Qint2"]], ["b", ["Qint2", "Qint2"]]], "bool"),
